@@ -152,7 +152,7 @@ contract(P + "displaced_even_power_potential:DisplacedEvenPowerPotential.__init_
                   "self._equilibrium_separation_squared == equilibrium_separation * equilibrium_separation"],
          canary="self._power == 2", native_search=False,
          note="establishes the object invariant the derivative / displacement contracts assume")
-contract(P + "lennard_jones_potential:LennardJonesPotential.__init__", ["C03", "C02"], model="R", axioms=POW,
+contract(P + "lennard_jones_potential:LennardJonesPotential.__init__", ["C03", "C02"], model="R",
          params={"prefactor": "float", "characteristic_length": "float"},
          raises={"ConfigurationError": "not (prefactor > 0) or not (characteristic_length * pow(2, 1 / 6) > 0)"},
          modifies=["self._prefactor", "self._number_separation_arguments", "self._number_charge_arguments",
